@@ -127,10 +127,6 @@ def C02_full_statement (rules : Rules) : Prop :=
 theorem C02_full_statement_fixed : C02_full_statement Rules.fixed :=
   fun env b best st hg h => (C02_accept_debits_exact env b best st hg h).1
 
-private theorem exAcct_of {a : Acct} (h : findAcct "A" exEnv.accounts = some a) :
-    a = { key := "A", value := 1000000, expiry := 5000, version := 0 } := by
-  simp [exEnv, findAcct] at h; exact h.symm
-
 /-- code as found: a new expiry of 4 000 000 000 (more than a year after block 101) is accepted -/
 theorem C02_pinned_accepts_overlong_expiry : ¬ C02_full_statement Rules.pinned := by
   intro h
